@@ -1,7 +1,7 @@
 (* C04 - correspondence: what the harness (harness/cmd/views) observed on the linker's descriptors and on the
    Go runtime's descriptors, checked against Model/FieldView.v and Model/RuntimeSpec.v inside coqc. *)
 From Coq Require Import List NArith ZArith Bool String.
-From PV Require Import Common.Corr Model.FeaturesTables Model.Features Model.FieldView Model.RuntimeSpec.
+From PV Require Import Common.Corr Model.FeaturesTables Model.Features Model.FieldView Model.RuntimeSpec Model.Ranges.
 Import ListNotations.
 Open Scope N_scope.
 
@@ -39,6 +39,20 @@ Definition spec_fobs (f : field) : fobs :=
 
 Definition f_feat (f : field) : list (option N) := map (protoutil_resolve_feature (f_edition f) (f_chain f)) all_features.
 
+Fixpoint list_Z_eqb (a b : list Z) : bool :=
+  match a, b with
+  | [], [] => true
+  | x :: r, y :: s => Z.eqb x y && list_Z_eqb r s
+  | _, _ => false
+  end.
+
+(* the probe numbers for which Has answers true: linker model, runtime spec (out of fuel counts as a mismatch) *)
+Definition lk_has_set (incl : bool) (rs : list range) (probes : list Z) : list Z := filter (lk_has incl rs) probes.
+Definition rt_has_set (incl : bool) (rs : list range) (probes : list Z) : option (list Z) :=
+  if forallb (fun n => match rt_has incl rs n with Some _ => true | None => false end) probes
+  then Some (filter (fun n => match rt_has incl rs n with Some b => b | None => false end) probes)
+  else None.
+
 Inductive view_case :=
 (* everything observed about one field in one term: linker vector, resolved features, runtime vector (None when
    the runtime rejected the file), the plugin's value of wf_field *)
@@ -65,7 +79,15 @@ Inductive view_case :=
 | VRtDefaults (e : N) (pres req packed delim closed : bool)
 (* the plugin's evaluation of the guard of the agreement theorems *)
 | VWfField (f : field) (wf : bool)
-| VWfEnum (e : N) (c : chain) (wf known : bool).
+| VWfEnum (e : N) (c : chain) (wf known : bool)
+(* ReservedRanges() / ExtensionRanges() of a message (incl = false) or ReservedRanges() of an enum (incl = true):
+   the ranges in declaration order as they are in the compiled proto, the numbers asked, the numbers for which
+   the linker's Has said true, the same for the runtime (None when the runtime rejected the file), the plugin's
+   value of the guard ranges_valid_b *)
+| VRangesHas (incl : bool) (rs : list range) (probes lk : list Z) (rt : option (list Z)) (valid : bool)
+| VRangesLk (incl : bool) (rs : list range) (probes lk : list Z)
+| VRangesRt (incl : bool) (rs : list range) (probes rt : list Z)
+| VRangesValid (incl : bool) (rs : list range) (valid : bool).
 
 Definition views_chk (c : view_case) : bool :=
   match c with
@@ -103,4 +125,14 @@ Definition views_chk (c : view_case) : bool :=
       && Bool.eqb (IsDelimitedEncoded fl) delim && Bool.eqb (negb (IsOpenEnum fl)) closed
   | VWfField f wf => Bool.eqb (wf_field f) wf
   | VWfEnum e ch wf known => Bool.eqb (wf_enum e ch) wf && Bool.eqb (enum_type_known ch) known
+  | VRangesHas incl rs probes lk rt valid =>
+      list_Z_eqb (lk_has_set incl rs probes) lk
+      && match rt with
+         | Some l => match rt_has_set incl rs probes with Some m => list_Z_eqb m l | None => false end
+         | None => true
+         end
+      && Bool.eqb (ranges_valid_b incl rs) valid
+  | VRangesLk incl rs probes lk => list_Z_eqb (lk_has_set incl rs probes) lk
+  | VRangesRt incl rs probes rt => match rt_has_set incl rs probes with Some m => list_Z_eqb m rt | None => false end
+  | VRangesValid incl rs valid => Bool.eqb (ranges_valid_b incl rs) valid
   end.
